@@ -165,12 +165,12 @@ var rlePattern = []int32{6, 6, 1, 1, 1, 1, 1, 1, 1, 1, 1, 1, 5, 5, 5, 5}
 func genDRows(seed int64, groups int) []dRow {
 	rng := rand.New(rand.NewSource(seed))
 	var idx []int32
-	for i := int32(0); i < 7; i++ { // dictionary 100..106 in insertion order: width 3
+	for i := int32(0); i < 8; i++ { // dictionary 100..107 in insertion order: width 3, one full group of eight
 		idx = append(idx, i)
 	}
 	idx = append(idx, rlePattern...)
 	for g := 0; g < groups; g++ {
-		a, b := int32(rng.Intn(7)), int32(rng.Intn(7))
+		a, b := int32(rng.Intn(8)), int32(rng.Intn(8))
 		switch rng.Intn(5) {
 		case 0: // constant group
 			for k := 0; k < 8; k++ {
@@ -182,14 +182,14 @@ func genDRows(seed int64, groups int) []dRow {
 			idx = append(idx, a, b, a, b, a, b, a, b)
 		default:
 			for k := 0; k < 8; k++ {
-				idx = append(idx, int32(rng.Intn(7)))
+				idx = append(idx, int32(rng.Intn(8)))
 			}
 		}
 	}
 	rows := make([]dRow, len(idx))
 	for i, x := range idx {
 		rows[i].D = 100 + x
-		if i >= 7 {
+		if i >= 8 {
 			rows[i].O = 1 + idx[(i*5+3)%len(idx)]%3
 			if (i/8)%3 == 1 {
 				rows[i].O = rows[i-1].O
@@ -436,10 +436,14 @@ func typedFactory[T any](sp spec, rows []T, n int, sortCol string, maxRows int64
 	return f
 }
 
+// buildPanics counts the specs that could not be built, by message (reported as a note).
+var buildPanics = map[string]int{}
+
 // build makes the factory of a spec. ok=false: the spec cannot be built.
 func build(sp spec) (f *factory, ok bool) {
 	defer func() {
 		if r := recover(); r != nil {
+			buildPanics[fmt.Sprint(r)]++
 			f, ok = nil, false
 		}
 	}()
@@ -1294,7 +1298,7 @@ func variantSpecs(c *core.Ctx) []spec {
 	}
 	out = append(out, spec{Family: "typed", API: "writer", Case: gen.Case{Seed: 2000, NRows: 120}})
 	out = append(out, spec{Family: "sorting", Case: gen.Case{Seed: 2001, NRows: 150}})
-	n := c.N(220, 2500)
+	n := c.N(220, 1500)
 	for i := 0; i < n; i++ {
 		cs := gen.Case{Seed: c.Seed*1000003 + 17*int64(i), NRows: []int{1, 5, 40, 130, 300, 700}[i%6], MaxDepth: 1 + i%3, MaxFields: 1 + (i/3)%5, Codecs: allCodecs, NullBias: i % 8}
 		sp := spec{Family: "gen", Case: cs}
@@ -1515,7 +1519,7 @@ func runC17(c *core.Ctx) {
 	buildVariants(c)
 
 	// ---- (a) Reset scenarios ----
-	nGen := c.N(260, 4000)
+	nGen := c.N(260, 2500)
 	for i := 0; i < nGen; i++ {
 		cs := gen.Case{Seed: c.Seed*7919 + int64(i), NRows: []int{0, 1, 5, 40, 130, 300}[c.Rng.Intn(6)], MaxDepth: 1 + c.Rng.Intn(3), MaxFields: 1 + c.Rng.Intn(5), Codecs: allCodecs, NullBias: c.Rng.Intn(8)}
 		sp := spec{Family: "gen", Case: cs, Extra: 20 + c.Rng.Intn(200)}
@@ -1543,7 +1547,7 @@ func runC17(c *core.Ctx) {
 			e.run(scenario{Spec: sp, Mode: "buffer", Prev: 1 + c.Rng.Intn(3), Count: c.Rng.Intn(2)}, "buffer/gen")
 		}
 	}
-	nTyped := c.N(120, 1500)
+	nTyped := c.N(120, 1000)
 	for i := 0; i < nTyped; i++ {
 		fam := []string{"typed", "typed", "rle", "sorting", "encrypted"}[i%5]
 		sp := spec{Family: fam, Case: gen.Case{Seed: c.Seed*104729 + int64(i), NRows: []int{0, 1, 8, 60, 250}[c.Rng.Intn(5)]}, Extra: 16 + c.Rng.Intn(300)}
@@ -1580,7 +1584,7 @@ func runC17(c *core.Ctx) {
 	}
 
 	// ---- (c), (d): goroutines, pools, GOMAXPROCS, repetition ----
-	nEnv := c.N(24, 300)
+	nEnv := c.N(24, 200)
 	for i := 0; i < nEnv; i++ {
 		var sp spec
 		if i%3 == 0 {
@@ -1612,6 +1616,10 @@ func runC17(c *core.Ctx) {
 				c.Mismatch("corr:C17.pinned-"+q[0], q[1]+" | "+q[2], q[3], got, nil)
 			}
 		}
+	}
+
+	for msg, n := range buildPanics {
+		c.Note("%d specs could not be built: %s", n, core.Trunc(msg, 200))
 	}
 
 	// ---- cases.v: the same model runs inside coqc ----
